@@ -23,7 +23,7 @@ ASSUMPTIONS = [
 ]
 GRID = [("logistic", 1, 0, "gaussian-scalar"), ("logistic", 2, 0, "gaussian-diagonal"), ("logistic", 3, 1, "gaussian-diagonal"), ("logistic", 3, 2, "gaussian-scalar"),
         ("linear", 2, 1, "gaussian-diagonal"), ("shared_speed_logistic", 3, 1, None), ("joint", 1, 0, None), ("joint", 3, 1, None), ("logistic", 2, 1, "bernoulli")]
-CALLS = ["estimate", "scipy_minimize", "mean_posterior", "mode_posterior", "simulate", "simulate_table"]
+CALLS = ["estimate", "scipy_minimize", "mean_posterior", "mode_posterior", "simulate", "simulate_table", "simulate_default_spacing"]
 HISTORY_ONLY = ["scipy_minimize_custom"]  # a personalisation with user-tuned optimiser options: must not influence later default calls
 
 
@@ -224,9 +224,11 @@ def run_shard(spec, ctx):
                     out = dig({k: np.asarray(v) for k, v in res.items()})
                     if any(not np.array_equal(np.asarray(tp[k_]), np.asarray(tp_ref[k_])) for k_ in tp_ref) or list(tp) != list(tp_ref) or dig(ip.to_pytorch()[1]) != ip_dig:
                         ctx.violation("api/estimate/caller-inputs-modified", "estimate modified the ages dict / individual parameters passed in", case)
-                elif what == "simulate":
+                elif what in ("simulate", "simulate_default_spacing"):
                     vp = {"patient_number": 4, "visit_type": "random", "first_visit_mean": 0.0, "first_visit_std": 0.4, "time_follow_up_mean": 4,
                           "time_follow_up_std": 0.5, "distance_visit_mean": 1.0, "distance_visit_std": 0.2, "min_spacing_between_visits": 0.01}
+                    if what == "simulate_default_spacing":
+                        del vp["min_spacing_between_visits"]  # optional entry left to its documented default
                     vp_ref = copy.deepcopy(vp)
                     feats = list(m.features)
                     res = m.simulate(algorithm="simulate", features=feats, visit_parameters=vp, seed=1234)
@@ -351,7 +353,15 @@ def run_shard(spec, ctx):
             # final calls
             for what in finals:
                 case = dict(case0, final=what, history=history)
-                o_fresh = do_call(fresh, what, who="fresh-from-fit")
+                try:
+                    o_fresh = do_call(fresh, what, who="fresh-from-fit")
+                except Exception as e_f:
+                    if before_any.get(what) is not None:
+                        ctx.violation(f"api/{what}/result-depends-on-earlier-calls-in-the-process",
+                                      f"{what}: raises {type(e_f).__name__} ({str(e_f)[:120]}) after {history} were run in this interpreter, while the very same "
+                                      "call had succeeded before them", case)
+                        continue
+                    raise
                 try:
                     o_hist = do_call(hist, what, who="after-history") if not refit else o_fresh
                 except Exception as e_h:
@@ -382,6 +392,15 @@ def run_shard(spec, ctx):
                         ctx.count("diff_repeat_reused_settings")
                         if o1 != o2 or o1 != o_rel:
                             ctx.violation(f"api/{what}/repeat-differs", f"{what}: repeating the call with a reused settings object gives another answer", case)
+                        if what == "scipy_minimize" and (spec["k"] + i) % 2 == 0:
+                            # two worker processes: the seed (not the workers' own random state) decides the start points, call after call
+                            st2 = AlgorithmSettings(what, seed=77, progress_bar=False, use_jacobian=False, n_jobs=2)
+                            w1 = do_call(reload_, what, settings=st2, who="reloaded(settings object, 2 workers)")
+                            w2 = do_call(reload_, what, settings=st2, who="reloaded(settings object reused, 2 workers)")
+                            ctx.count("diff_repeat_two_workers")
+                            if w1 != w2 or w1 != o_rel:
+                                ctx.violation(f"api/{what}/repeat-differs", f"{what} with 2 workers: repeating the call with the same settings object and seed gives another answer "
+                                              "(or another answer than with 1 worker)", case)
                         if what != "scipy_minimize":
                             # non-default options held in nested settings (tempered chains): the object is reused as is, then after its
                             # iteration count was changed by the caller; each time it must answer like a brand-new object with those options
